@@ -273,6 +273,10 @@ pub enum BOp {
     Poll(u32),
     Closure(u32),
     HasherBox(u32),
+    /// a box of a value whose alignment (2^log2: 32, 64, 256 or 4096) exceeds every chunk granule;
+    /// it must be aligned, inside arena memory and keep its bytes (the value is leaked and
+    /// re-verified after every later step)
+    OverAligned { log2: u8, seed: u32 },
 }
 
 #[derive(Clone, Debug, PartialEq, Serialize, Deserialize)]
